@@ -5,7 +5,7 @@
 // JSON that maps each original file to its rewritten copy. A construct it does not know aborts
 // generation (exit 2): nothing is ever left silently uninstrumented.
 //
-//	vgen -dir /repo -out <dir> [-overlay extra.json] [-time] pkgpattern...
+//	vgen -dir /repo -out <dir> [-overlay extra.json] [-time] [-ctxtimeout] pkgpattern...
 package main
 
 import (
@@ -38,6 +38,7 @@ var (
 	extra    = flag.String("overlay", "", "extra overlay JSON (mutated sources) to read instead of the files on disk")
 	useTime  = flag.Bool("time", false, "also redirect package time to the virtual clock shim")
 	sortMaps = flag.Bool("sortmaps", true, "iterate maps with ordered keys in key order")
+	ctxTime  = flag.Bool("ctxtimeout", false, "redirect context.WithTimeout to vtime.WithTimeout (deadline on the harness-owned clock)")
 )
 
 func fatal(f string, a ...any) {
@@ -50,6 +51,7 @@ type rewriter struct {
 	info *types.Info
 	n    int
 	used bool // file needs the vrt import
+	ctxt bool // file needs the vtime import for WithTimeout
 	file string
 
 	commOf  map[ast.Stmt]*ast.CommClause
@@ -101,6 +103,8 @@ type plan struct {
 	makeChan  map[*ast.CallExpr]bool
 	closeCall map[*ast.CallExpr]bool
 	bidi      map[ast.Expr]bool // select receive channel expressions that are bidirectional
+	// calls of context.WithTimeout (only with -ctxtimeout)
+	ctxTimeout map[*ast.CallExpr]bool
 }
 
 func orderedKey(t types.Type) bool {
@@ -109,7 +113,7 @@ func orderedKey(t types.Type) bool {
 }
 
 func (r *rewriter) rewriteFile(f *ast.File) {
-	p := &plan{rangeChan: map[*ast.RangeStmt]bool{}, rangeMap: map[*ast.RangeStmt]bool{}, chanLen: map[*ast.CallExpr]string{}, makeChan: map[*ast.CallExpr]bool{}, closeCall: map[*ast.CallExpr]bool{}, bidi: map[ast.Expr]bool{}}
+	p := &plan{rangeChan: map[*ast.RangeStmt]bool{}, rangeMap: map[*ast.RangeStmt]bool{}, chanLen: map[*ast.CallExpr]string{}, makeChan: map[*ast.CallExpr]bool{}, closeCall: map[*ast.CallExpr]bool{}, bidi: map[ast.Expr]bool{}, ctxTimeout: map[*ast.CallExpr]bool{}}
 	ast.Inspect(f, func(n ast.Node) bool {
 		switch x := n.(type) {
 		case *ast.RangeStmt:
@@ -125,6 +129,13 @@ func (r *rewriter) rewriteFile(f *ast.File) {
 				}
 			}
 		case *ast.CallExpr:
+			if *ctxTime {
+				if se, ok := x.Fun.(*ast.SelectorExpr); ok && se.Sel.Name == "WithTimeout" {
+					if fn, ok := r.info.Uses[se.Sel].(*types.Func); ok && fn.Pkg() != nil && fn.Pkg().Path() == "context" {
+						p.ctxTimeout[x] = true
+					}
+				}
+			}
 			switch {
 			case r.isBuiltin(x.Fun, "make") && len(x.Args) >= 1:
 				if t := r.info.TypeOf(x.Args[0]); t != nil {
@@ -201,6 +212,9 @@ func (r *rewriter) rewriteFile(f *ast.File) {
 			c.Replace(call(vrtSel("Recv"), x.X))
 		case *ast.CallExpr:
 			switch {
+			case p.ctxTimeout[x]:
+				r.ctxt = true
+				x.Fun = &ast.SelectorExpr{X: ast.NewIdent("vtimectx"), Sel: ast.NewIdent("WithTimeout")}
 			case p.makeChan[x]:
 				r.used = true
 				var elem ast.Expr
@@ -542,11 +556,14 @@ func main() {
 					changedImports = true
 				}
 			}
-			if !r.used && !changedImports {
+			if !r.used && !changedImports && !r.ctxt {
 				continue
 			}
 			if r.used {
 				astutil.AddNamedImport(p.Fset, f, "vrt", rtBase+"vrt")
+			}
+			if r.ctxt {
+				astutil.AddNamedImport(p.Fset, f, "vtimectx", rtBase+"vtime")
 			}
 			var buf bytes.Buffer
 			if err := format.Node(&buf, p.Fset, f); err != nil {
